@@ -32,6 +32,7 @@ pub fn generate(seed: u64, tier: Tier) -> Scenario {
     let mut rng = Rng::new(derive(seed, 7, 0));
     let mut cfg = if rng.chance(2, 3) { GenConfig::medium() } else { GenConfig::small() }.swarm(&mut rng);
     cfg.multi_group |= rng.chance(1, 2);
+    cfg.vardct = rng.chance(1, 3);
     let mut case = valid_stream(&mut rng, &cfg, if tier == Tier::Quick { 1500 } else { 400 }, 15);
     let faulted = rng.chance(1, 5);
     if faulted {
@@ -82,6 +83,7 @@ pub fn digest(sc: &Scenario) -> u64 {
 }
 
 fn viol(seed: u64, sc: &Scenario, class: String, detail: String) -> Violation {
+    let class = if sc.case.has_vardct && !class.starts_with("panic:") { format!("{class}+vardct") } else { class };
     Violation { property: "C07".into(), check: "c07".into(), class, detail, seed, scenario: serde_json::to_value(sc).unwrap() }
 }
 
